@@ -22,7 +22,7 @@ from .. import emit as E
 from .. import guards as G
 from .. import ownership as O
 from ..model import AnalysisError, Unknown, dotted, src
-from . import c13
+from . import c12, c13
 from .c10 import unit_of
 
 TECHNIQUE = "QFREE-emission/deactivation pairing, typestate (activate/deactivate) analysis of internally created handles with escape through returns, belief rule on the relocation peephole (static analysis)"
@@ -34,7 +34,7 @@ EXPLANATION = (
     "table (retry loops whose handles stay valid, relocation). Every Qubit(...)/FutureQubit(...) created inside the SDK is tracked "
     "by the acquire/release engine (constructor = activate, `.active = False` = deactivate, ownership transferred by return / list / "
     "callee that deactivates its parameter) up to a public API. An in-place rewrite of an already emitted command's operand must lie "
-    "under a test reading that same operand against the relocated address. Controller-side allocation guards as in C13.G."
+    "under a test reading that same operand against the relocated address. Controller-side allocation guards as in C13.G and the occupied-slot test that holds back an arriving pair while its virtual id is still allocated (as in C12.B)."
 )
 LEVEL_TEXT = (
     "Static analysis, partial: the structural agreement of SDK-side handle state with emitted qalloc/qfree at every emission and "
@@ -375,11 +375,15 @@ def run(ctx):
     check_peephole(ctx)
     check_relocation(ctx)
     c13.check_alloc_guards(ctx, "C09.X")
+    # the controller's "is this virtual qubit allocated?" test decides whether an arriving pair may take the id (shared with C12.B)
+    c12.check_busy(ctx, ctx.repo.get_class(c12.EXE, "Executor"), "C09.X")
 
 
 QB = "netqasm/sdk/qubit.py"
 BF = "netqasm/sdk/builder.py"
 SEEDS = [
+    dict(id="c09-occupied-test-truthiness", file="netqasm/backend/executor.py", expect="C09.X", construct="slot-occupied-test",
+         old="        return unit_module[virtual_address] is not None", new="        return bool(unit_module[virtual_address])"),
     dict(id="c09-orig-free", file=QB, expect="C09.F", construct="Qubit.free", old="        self.builder._build_cmds_qfree(qubit_id=self.qubit_id)\n        self.active = False\n", new="        self.builder._build_cmds_qfree(qubit_id=self.qubit_id)\n"),
     dict(id="c09-measure-guard", file=QB, expect="C09.F", construct="Qubit.measure", old="        if not inplace:\n            self.active = False\n", new="        if inplace:\n            self.active = False\n"),
     dict(id="c09-measure-always-free", file=BF, expect="C09.F", construct="Qubit.measure", old="        if not inplace:\n            free_commands = [", new="        if True:\n            free_commands = ["),
